@@ -46,7 +46,15 @@ pub fn hayson_observation(v: &V) -> String {
     let tree = serde_json::to_value(&lv).map_err(|e| e.to_string());
     let back = t.as_ref().ok().map(|t| serde_json::from_str::<Value>(t).map(|b| format!("{:?}", from_lib(&b))).map_err(|e| e.to_string()));
     let back2 = tree.as_ref().ok().map(|t| serde_json::from_value::<Value>(t.clone()).map(|b| format!("{:?}", from_lib(&b))).map_err(|e| e.to_string()));
-    format!("{t:?}|{back:?}|{back2:?}")
+    // encodes into writers that fail at the 1st / 2nd / 5th call (the error is part of the observation)
+    let failing: Vec<String> = [1usize, 2, 5]
+        .iter()
+        .map(|&k| {
+            let mut w = super::common::FailAt { calls: 0, k, out: vec![] };
+            format!("{:?}", serde_json::to_writer(&mut w, &lv).map_err(|e| e.to_string()))
+        })
+        .collect();
+    format!("{t:?}|{back:?}|{back2:?}|{failing:?}")
 }
 
 pub fn hayson_roundtrip(v: &V) -> Verdict {
@@ -67,6 +75,11 @@ pub fn hayson_roundtrip(v: &V) -> Verdict {
     };
     if s.as_bytes() != b.as_slice() {
         return Err(("encode-string-vs-vec".into(), format!("to_string {s} vs to_vec {}", String::from_utf8_lossy(&b))));
+    }
+    // a clone has the same text
+    match guarded(|| serde_json::to_string(&lv.clone())) {
+        Ok(Ok(t2)) if t2 == s => {}
+        other => return Err(("clone-encodes-differently".into(), format!("original {s}, clone {other:?}"))),
     }
     // the three encodings through the three decoders
     let texts: Vec<(&str, String)> = vec![("to_string", s.clone()), ("to_value", t.to_string())];
@@ -170,6 +183,21 @@ pub fn run(tier: Tier) -> i32 {
         local.count("user-records");
     });
     run.absorb(l);
+    // accumulation: 300 repetitions (incl. encodes into a failing writer) on each container, then the pool
+    {
+        let pool = super::c01::history_pool();
+        let before: Vec<V> = {
+            let mut b = u::pool_containers1();
+            b.extend(u::pool_containers2().into_iter().step_by(5));
+            b.extend([u::small_grid(), u::meta_grid()]);
+            b.truncate(32);
+            b
+        };
+        let mut then: Vec<V> = pool.iter().step_by(9).cloned().collect();
+        then.extend(u::size_witnesses_cached(Tier::Quick).iter().filter(|v| (100..=127).contains(&u::json_depth(v))).take(4).cloned());
+        let l = super::common::history_after_repeats("hayson-codec", &before, &then, 300, &hayson_observation, &|v: &V| to_json(v));
+        run.absorb(l);
+    }
     let pool = super::c01::history_pool();
     let l = super::common::history_pairs("hayson-codec", &pool, &hayson_observation, &|v: &V| to_json(v));
     run.absorb(l);
@@ -189,7 +217,7 @@ pub fn run(tier: Tier) -> i32 {
                         Err((s2, d2)) => (s2, d2, pair),
                         Ok(()) => (stage, d, doc),
                     };
-                    local.fail(&format!("{stage}:two-values-in-one-document:{}", crate::model::shrink::shape_sig(&shown)), json!({"value": to_json(&shown)}), d);
+                    local.fail(&format!("{stage}:two-values-in-one-document:{}", crate::model::shrink::shape_sig(&shown)), json!({"value": to_json(&shown), "pair_document": true}), d);
                 }
             }
             local.count("pair-documents");
@@ -267,12 +295,15 @@ pub fn run(tier: Tier) -> i32 {
 }
 
 pub fn replay(case: &J) -> Verdict {
+    if case["history_repeats"].is_string() {
+        return super::common::replay_history_repeats(case, &|j| crate::model::v::from_json(j), &hayson_observation, "hayson-codec");
+    }
+    if case["pair_document"] == true {
+        let v = crate::model::v::from_json(&case["value"]);
+        return hayson_roundtrip(&v).map_err(|(stage, d)| (format!("{stage}:two-values-in-one-document:{}", crate::model::shrink::shape_sig(&v)), d));
+    }
     if case["history_pair"].is_string() {
-        let (w, v) = (crate::model::v::from_json(&case["before"]), crate::model::v::from_json(&case["then"]));
-        let alone = std::thread::scope(|s| s.spawn(|| hayson_observation(&v)).join().unwrap());
-        let _ = hayson_observation(&w);
-        let after = hayson_observation(&v);
-        return if alone == after { Ok(()) } else { Err(("history-changes-output:hayson-codec".into(), format!("alone {alone}, after {after}"))) };
+        return super::common::replay_history_pair(case, &|j| crate::model::v::from_json(j), &hayson_observation, "hayson-codec");
     }
     if case["oracle"] == "user-record" {
         return replay_value(case, &user_record_roundtrip);
